@@ -70,11 +70,29 @@ theorem handleAE_facts (nd : Node) (t prevIdx prevTerm : Nat) (es : List Entry) 
     · simp only [h2, if_true]
       split
       · simp; omega
-      · split <;> (simp; omega)
+      · split
+        · simp; omega
+        · split <;> (simp; omega)
     · simp only [h2, if_false]
       split
       · simp
-      · split <;> simp
+      · split
+        · simp
+        · split <;> simp
+
+theorem handleIS_facts (nd : Node) (T : List Entry) (t idx iterm : Nat) :
+    let r := handleIS nd T t idx iterm
+    r.1.voteTerm = nd.voteTerm ∧ r.1.voteCand = nd.voteCand ∧ nd.term ≤ r.1.term ∧
+    ((r.1.tally = nd.tally ∧ r.1.term = nd.term) ∨ r.1.tally = []) := by
+  simp only [handleIS]
+  by_cases h1 : t < nd.term
+  · simp [h1]
+  · simp only [h1, if_false]
+    by_cases h2 : nd.term < t ∨ nd.role ≠ .follower
+    · simp only [h2, if_true]
+      split <;> (simp; omega)
+    · simp only [h2, if_false]
+      split <;> simp
 
 theorem inv_step (n : Nat) (s s' : Sys) (hinv : Inv n s) (hstep : Step n s s') : Inv n s' := by
   obtain ⟨l, hen, rfl⟩ := hstep
@@ -382,6 +400,86 @@ theorem inv_step (n : Nat) (s s' : Sys) (hinv : Inv n s) (hstep : Step n s s') :
       simp only [setNode_nodes]; split
       · rename_i h; subst h; exact h5 j
       · exact h5 j
+  | compact i b =>
+    simp only [apply]
+    refine ⟨?_, ?_, h3, h4, ?_, h6⟩
+    · intro j; simp only [setNode_nodes]; split
+      · exact h1 i
+      · exact h1 j
+    · intro v t c hg
+      have := h2 v t c hg
+      simp only [setNode_nodes]; split
+      · rename_i h; subst h; exact this
+      · exact this
+    · intro j
+      simp only [setNode_nodes]; split
+      · rename_i h; subst h; exact h5 j
+      · exact h5 j
+  | takeSnap i k =>
+    simp only [apply]
+    refine ⟨?_, ?_, h3, h4, ?_, h6⟩
+    · intro j; simp only [setNode_nodes]; split
+      · exact h1 i
+      · exact h1 j
+    · intro v t c hg
+      have := h2 v t c hg
+      simp only [setNode_nodes]; split
+      · rename_i h; subst h; exact this
+      · exact this
+    · intro j
+      simp only [setNode_nodes]; split
+      · rename_i h; subst h; exact h5 j
+      · exact h5 j
+  | sendIS i =>
+    simp only [apply]
+    refine ⟨h1, h2, h3, ?_, h5, h6⟩
+    intro v c t hm
+    simp only [List.mem_cons] at hm
+    rcases hm with hm | hm
+    · cases hm
+    · exact h4 v c t hm
+  | recvIS j ldr t idx iterm =>
+    simp only [apply]
+    have hf := handleIS_facts (s.nodes j) (s.ghost.tl t) t idx iterm
+    simp only at hf
+    obtain ⟨f1, f2, f3, f4⟩ := hf
+    have hgr : (if (handleIS (s.nodes j) (s.ghost.tl t) t idx iterm).2 = true then
+        ({ s.ghost with acks := (j, t, idx) :: s.ghost.acks } : Ghost) else s.ghost).grants
+        = s.ghost.grants := by split <;> rfl
+    have hel : (if (handleIS (s.nodes j) (s.ghost.tl t) t idx iterm).2 = true then
+        ({ s.ghost with acks := (j, t, idx) :: s.ghost.acks } : Ghost) else s.ghost).elected
+        = s.ghost.elected := by split <;> rfl
+    refine ⟨?_, ?_, ?_, ?_, ?_, ?_⟩
+    · intro k; simp only [setNode_nodes]; split
+      · rw [f1]; have := h1 j; omega
+      · exact h1 k
+    · intro v t' c hg
+      rw [hgr] at hg
+      have := h2 v t' c hg
+      simp only [setNode_nodes]; split
+      · rename_i h; subst h; rw [f1, f2]; exact this
+      · exact this
+    · intro v t' c c' hg hg'; rw [hgr] at hg hg'; exact h3 v t' c c' hg hg'
+    · intro v c t' hm
+      rw [hgr]
+      apply h4 v c t'
+      split at hm
+      · rcases List.mem_cons.mp hm with hm | hm
+        · cases hm
+        · exact hm
+      · exact hm
+    · intro k
+      rw [hgr]
+      simp only [setNode_nodes]; split
+      · rename_i h; subst h
+        have pre := h5 k
+        rcases f4 with ⟨g1, g2⟩ | g1
+        · rw [g1, g2]; exact pre
+        · rw [g1]; simp
+      · exact h5 k
+    · intro t' l Q hq
+      rw [hel] at hq; rw [hgr]
+      exact h6 t' l Q hq
   | crash i =>
     simp only [apply]
     refine ⟨?_, ?_, h3, h4, ?_, h6⟩
